@@ -80,6 +80,10 @@ impl<'a> Iterator for Params<'a> {
                     ));
                 }
                 self.input = rest;
+            } else if !rest.is_empty() {
+                // new-params-bound flag is 0: the client re-uses the types it bound earlier; the
+                // flag byte itself still has to be skipped
+                self.input = &rest[1..];
             }
         }
 
